@@ -141,6 +141,10 @@ def run_case(case):
                         raise KeyError("user error")
                     except KeyError as ex:
                         p.__exit__(type(ex), ex, ex.__traceback__)
+                elif op[2] == "genexit":
+                    # the with-block sits in a generator that is closed while suspended inside it
+                    ex = GeneratorExit()
+                    p.__exit__(GeneratorExit, ex, None)
                 elif op[2] == "explicit":
                     p.deactivate()
                 elif op[2] == "derived":
